@@ -549,7 +549,7 @@ def gen_witnesses():
 def phases(tier):
     quick = tier == 'quick'
     return [
-        Phase('fixed-family', check_case, gen=gen_fixed(), exhaustive=True, shards=8),
-        Phase('literal-witnesses', check_case, gen=gen_witnesses(), exhaustive=True, shards=4),
-        Phase('generated', check_case, strategy=strategy, examples=1600 if quick else 12000),
+        Phase('fixed-family', check_case, gen=gen_fixed(), exhaustive=True, shards=8, native=True),
+        Phase('literal-witnesses', check_case, gen=gen_witnesses(), exhaustive=True, shards=4, native=True),
+        Phase('generated', check_case, strategy=strategy, examples=1600 if quick else 12000, native=True),
     ]
